@@ -212,6 +212,7 @@ func Family(name string, tier string) []*Scenario {
 		out = append(out, taskPanics(thorough)...)
 		out = append(out, readdAfterDeps(thorough)...)
 		out = append(out, unboundedRetries(thorough)...)
+		out = append(out, wrappedSkip(thorough)...)
 	case "C14":
 		out = append(out, fourVertexSingleFault(thorough)...)
 		out = append(out, fiveVertexFaults(thorough)...)
@@ -222,6 +223,8 @@ func Family(name string, tier string) []*Scenario {
 		out = append(out, readdAfterDeps(thorough)...)
 		out = append(out, skipUnderLimit(thorough)...)
 		out = append(out, wrappedSkip(thorough)...)
+		out = append(out, percentIDs(thorough)...)
+		out = append(out, contextWrappingErrors(thorough)...)
 		for n := 1; n <= 3; n++ {
 			for _, es := range AllDAGs(n) {
 				for _, scr := range assignments(n, []string{"ok", "err", "skip"}) {
@@ -340,6 +343,7 @@ func Family(name string, tier string) []*Scenario {
 		out = append(out, skipUnderLimit(thorough)...)
 		out = append(out, serialThenLimit(thorough)...)
 		out = append(out, literalSharedTasks(thorough)...)
+		out = append(out, sharedThroughAccessor(thorough)...)
 		for _, sc := range retryWithOtherFault(thorough) {
 			if sc.Mode == "max1" || sc.Mode == "max2" {
 				out = append(out, sc)
@@ -480,6 +484,7 @@ func Family(name string, tier string) []*Scenario {
 		out = append(out, sharedSaturated(thorough)...)
 		out = append(out, readdAfterDeps(thorough)...)
 		out = append(out, slotWaitCancel(thorough)...)
+		out = append(out, tickerZero(thorough)...)
 	case "C16sort":
 		// (c) DepthFirstSort alone on every DAG shape with up to five vertices, and on the same shapes with one
 		// extra edge that closes a cycle; explored over the rotations of its map ranges
@@ -1112,6 +1117,86 @@ func literalSharedTasks(thorough bool) []*Scenario {
 			sc.SharedMode = mm[1]
 			sc.Shared = []int{0}
 			sc.Literal = true
+			out = append(out, sc)
+		}
+	}
+	return out
+}
+
+// percentIDs: task IDs and graph name with percent signs, one task failing or skipping.
+func percentIDs(thorough bool) []*Scenario {
+	var out []*Scenario
+	for _, es := range [][][2]int{nil, {{1, 0}}, {{1, 0}, {2, 1}}} {
+		for v := 0; v < 3; v++ {
+			for _, how := range []string{"err", "skip"} {
+				scr := [][]string{{"ok"}, {"ok"}, {"ok"}}
+				scr[v] = []string{how}
+				if !relevant(3, es, scr) {
+					continue
+				}
+				sc := GraphScenario(3, es, scr, nil, "par")
+				sc.PctIDs = true
+				sc.Light = 1
+				out = append(out, sc)
+			}
+		}
+	}
+	return out
+}
+
+// contextWrappingErrors: a cancellation thread, and tasks whose error wraps ctx.Err() when the context is done by then.
+func contextWrappingErrors(thorough bool) []*Scenario {
+	var out []*Scenario
+	for n := 1; n <= 2; n++ {
+		for _, es := range AllDAGs(n) {
+			for v := 0; v < n; v++ {
+				scr := make([][]string, n)
+				for i := range scr {
+					scr[i] = []string{"ok"}
+				}
+				scr[v] = []string{"xerr"}
+				if !relevant(n, es, scr) {
+					continue
+				}
+				for _, mode := range []string{"par", "serial"} {
+					sc := GraphScenario(n, es, scr, nil, mode)
+					sc.Cancel = true
+					sc.Light = 1
+					out = append(out, sc)
+				}
+			}
+		}
+	}
+	return out
+}
+
+// sharedThroughAccessor: the second graph gets the shared task through g.Task(id) of the first graph.
+func sharedThroughAccessor(thorough bool) []*Scenario {
+	var out []*Scenario
+	for n := 1; n <= 2; n++ {
+		scr := make([][]string, n)
+		for i := range scr {
+			scr[i] = []string{"ok"}
+		}
+		for _, mm := range [][2]string{{"par", "par"}, {"serial", "par"}, {"max1", "serial"}} {
+			sc := GraphScenario(n, nil, scr, nil, mm[0])
+			sc.SharedMode = mm[1]
+			sc.Shared = []int{0}
+			sc.ViaTask = true
+			out = append(out, sc)
+		}
+	}
+	return out
+}
+
+// tickerZero: Graph.TickerDuration set to zero (poll without pause).
+func tickerZero(thorough bool) []*Scenario {
+	var out []*Scenario
+	for _, es := range [][][2]int{nil, {{1, 0}}} {
+		for _, mode := range []string{"par", "max1"} {
+			sc := GraphScenario(2, es, [][]string{{"ok"}, {"ok"}}, nil, mode)
+			sc.TickerZero = true
+			sc.Light = 1
 			out = append(out, sc)
 		}
 	}
